@@ -289,6 +289,7 @@ func (c16) Plan(tier string) []core.Segment {
 		{Gen: "soup", Profile: "default", Count: scale(tier, 600_000, 8_000_000)},
 		{Gen: "soup", Profile: "crnul", Count: scale(tier, 150_000, 2_000_000)},
 		{Gen: "specmut", Count: scale(tier, 450_000, 6_000_000)},
+		{Gen: "bigdoc", Count: scale(tier, 600, 20000), Desc: "8-40 KiB documents: hundreds of root blocks cut from one buffer", Batch: 50},
 	}
 }
 
